@@ -55,7 +55,7 @@ func ModelExtent(entry string, in []byte, typ int) (int, bool) {
 		_, n, err := model.DecodeLeaseSet(in)
 		return n, err == nil
 	case "lease_set2.ReadLeaseSet2":
-		_, n, err := model.DecodeLS2(in)
+		n, err := model.LS2Extent(in)
 		return n, err == nil
 	case "meta_leaseset.ReadMetaLeaseSet":
 		_, n, err := model.DecodeMetaLS(in)
